@@ -70,7 +70,7 @@ void ClockDevice::build() {
   ref.outstanding = false; ref.haveStale = false;
   keep.reset();
   sync.boot(cfg, t);
-  timeoutSnapshotValid = false; prevLoopT = -1;
+  timeoutSnapshotValid = false; prevLoopT = -1; lastLoopT = t;
   lastPollT = t;
   built = true;
   setMillis();
@@ -124,6 +124,16 @@ void ClockDevice::doSet(acetime_t val, int opIndex, Verdict& v, Coverage& cov, c
   }
   if (val != kInvalid) lastPollT = t;
   (void)opIndex; (void)v;
+}
+
+// Polled time (see SyncModel): credited from one loop() call to the next, when they are at most 64,536 ms apart. A
+// longer gap earns nothing, and may cost a machine that keeps its own seconds the sub-second remainder it carried
+// (16-bit catch-up arithmetic wraps): one more second of grace.
+void ClockDevice::noteLoopGap() {
+  int64_t g = t - lastLoopT;
+  if (g < 0) g = 0;
+  if (g <= KeepModel::kMaxGap) sync.polled += g; else sync.dueMax += 1000;
+  lastLoopT = t;
 }
 
 void ClockDevice::doLoop(int opIndex, Verdict& v, Coverage& cov) {
@@ -220,11 +230,14 @@ void ClockDevice::doLoop(int opIndex, Verdict& v, Coverage& cov) {
   const bool sentNow = sent && !both;
 
   // When exactly a request counts as timed out is the implementation's call (">= timeout" in the shipped code;
-  // "> timeout" would keep the property just as well). If the model has declared a time-out but nothing was sent
-  // since, and the answer only became ready after the previous loop() call, then consuming it now is the same
-  // ready-at-the-time-out race as rule 4: the model takes its time-out back and treats the read as a normal one.
-  // An answer that was already ready at an earlier call and was ignored then is a different matter (below).
+  // "> timeout" would keep the property just as well). The two differ at ONE instant only: a loop() call exactly
+  // `timeout` ms after the request. If the model declared its time-out at such a call, no simulated time has been
+  // observed by a loop() call since (the previous call was at that very instant), and the answer became ready after
+  // it, then consuming the answer now is what a "> timeout" machine does with a request it has not given up yet: the
+  // model takes its time-out back and treats the read as a normal one. In every other case a valid answer consumed
+  // after the model's time-out is the late answer of a request already given up (rule 2, below).
   if (readValid && !sent && sync.phase == SyncModel::IDLE && sync.after == SyncModel::FAILURE && timeoutSnapshotValid
+      && timeoutSnapshotT == syncBeforeTimeout.start + (int64_t)cfg.tmo && prevLoopT == timeoutSnapshotT
       && readyAtBefore > prevLoopT) {
     { int64_t keepPolled = sync.polled; sync = syncBeforeTimeout; sync.polled = keepPolled; }
     timeoutSnapshotValid = false;
@@ -337,7 +350,7 @@ void ClockDevice::doLoop(int opIndex, Verdict& v, Coverage& cov) {
     } else if (!readyBefore && late) {
       cov.count(kindBefore == RefPlan::LOST ? "fault.ref_lost" : "fault.ref_late");
       sawFail = true;
-      syncBeforeTimeout = sync; timeoutSnapshotValid = true;
+      syncBeforeTimeout = sync; timeoutSnapshotValid = true; timeoutSnapshotT = now;
       sync.fail(now);
     } else if (readyBefore && late && readyAtBefore >= sync.start + (int64_t)cfg.tmo) {
       // rule 4: the answer became ready only at/after the time-out instant and this is the first
@@ -406,7 +419,7 @@ bool ClockDevice::exec(const std::vector<std::string>& toks, int opIndex, Verdic
   } else if (op == "GET" || op == "LOOP") {
     // wrap / gap accounting (between consecutive polls)
     int64_t gap = t - lastPollT;
-    if (opts.armC14 && gap >= 0 && gap <= KeepModel::kMaxGap) sync.polled += gap;
+    if (opts.armC14 && op == "LOOP") noteLoopGap();
     uint64_t c0 = boot + (uint64_t)lastPollT, c1 = boot + (uint64_t)t;
     bool x16 = (c0 >> 16) != (c1 >> 16), x32 = (c0 >> 32) != (c1 >> 32);
     if (x16) cov.count("fault.wrap16");
@@ -446,15 +459,27 @@ bool ClockDevice::exec(const std::vector<std::string>& toks, int opIndex, Verdic
     // budget: outstanding request may still have to time out, then the longest admissible
     // period, then the final request's latency (10 ms); counted in loop() calls, not wall time
     int calls = 0;
-    // steps of at most 60 s, so that all of the drain is polled time; the budget in calls follows from that
-    const int budget = (int)((sync.maxPeriodMs() + cfg.tmo) / 60000) + 40;
+    // steps of at most 60 s, and never one that would stretch the gap since the previous loop() call beyond 64,536 ms,
+    // so that the drain itself is polled time; the budget in calls follows from that
+    const int budget = (int)((sync.maxPeriodMs() + cfg.tmo) / 60000) + 60;
+    // what had gone by since the previous loop() call belongs to the time before the faults stopped
+    const int64_t pending = t - lastLoopT;
+    const int64_t polled0 = sync.polled + (pending >= 0 && pending <= KeepModel::kMaxGap ? pending : 0);
+    int idleProbes = 0;
+    uint64_t lastRequests = sync.requests, lastFailures = sync.failures;
     while (sync.successes < target && calls < budget && !v.violated) {
       int64_t dl = sync.nextDeadline(t, ref.outstanding ? ref.readyAt : SimRefClock::kNever);
+      if (sync.requests != lastRequests || sync.failures != lastFailures) { idleProbes = 0; lastRequests = sync.requests; lastFailures = sync.failures; }
       int64_t step = dl - t;
+      // idle and past the instant at which the shipped schedule sends: first give the machine a handful of calls
+      // one millisecond apart (the shipped one sends in the second), and only then jump towards the bound
+      if (sync.phase == SyncModel::IDLE && t > sync.dueExpect + 2 && idleProbes < kMaxIdleCallsPastDeadline + 2) { step = 1; idleProbes++; }
       if (step > 60000) step = 60000;
-      if (step < 1) step = 1;   // the deadline is now or past: let one millisecond go by between calls
+      int64_t room = KeepModel::kMaxGap - (t - lastLoopT);
+      if (step > room) step = room;
+      if (step < 1) step = 1;   // the deadline is now or past (or the pending gap is over-long already): one millisecond
       advance(step, cov);
-      sync.polled += step;
+      noteLoopGap();
       doLoop(opIndex, v, cov);
       lastPollT = t;
       calls++;
@@ -465,10 +490,11 @@ bool ClockDevice::exec(const std::vector<std::string>& toks, int opIndex, Verdic
           "the model's deadlines over %lld simulated ms produced no successful sync",
           (long long)t0, calls, (long long)(t - t0)), opIndex);
     }
-    int64_t bound = sync.maxPeriodMs() + cfg.tmo + 1000 + 40;
-    if (!v.violated && t - t0 > bound) {
-      v.fail("c14-liveness-final", fmt("successful sync only %lld ms after faults stopped; bound is %lld",
-          (long long)(t - t0), (long long)bound), opIndex);
+    // measured, like every liveness bound here, in polled time (+1 s for a gap that was over-long before the drain began)
+    int64_t bound = sync.maxPeriodMs() + cfg.tmo + 2000 + 40;
+    if (!v.violated && sync.polled - polled0 > bound) {
+      v.fail("c14-liveness-final", fmt("successful sync only %lld ms of polled time after faults stopped; bound is %lld",
+          (long long)(sync.polled - polled0), (long long)bound), opIndex);
     }
   }
   return true;
